@@ -30,6 +30,8 @@ CONFIGS = [
     {'local_as': 65535, 'remote_as': 65534,
      'caps': {'four_bytes_as': False, 'route_refresh': True, 'cisco_route_refresh': False, 'enhanced_route_refresh': False,
               'graceful_restart': False, 'cisco_multi_session': False, 'add_path': None, 'afi_safi': [[1, 1]]}},
+    # TCP MD5 signatures configured (a password that is not ASCII), retry timer shorter than the 30 s TCP connect timeout
+    {'md5': 'p\u00e4ssw\u00f6rd', 'connect_retry_time': 8, 'idle_hold_time': 3},
 ]
 
 
@@ -306,7 +308,9 @@ def run(seed, tier, driver):
                 res.stats.case(('script', jdump(conf), ol, fl), sample=None)
                 res.stats.hit('script_' + fl.split('_')[0])
     two_sessions(driver, res, r, tier)
+    after_the_end(driver, res, r, tier)
     handler_faults(res, r, tier)
+    shipped_handler(res, r, tier)
     octet_tables(driver, res, r, tier)
     nwalks = 150 if tier == 'quick' else 6000
     for i in range(nwalks):
@@ -315,6 +319,58 @@ def run(seed, tier, driver):
         pool = SG.message_pool(full['remote_as'])
         random_walk(conf, driver, res, r, pool, r.choice([20, 40, 80]), r.choice(['session', 'session', 'chaos', 'timers']))
     return res
+
+
+def after_the_end(driver, res, r, tier):
+    """What a session that has ended leaves behind: a session is brought to OpenSent / OpenConfirm / Established, ended in
+    every way the pool knows (each message, the connection lost, operator stop), then - the operator starting the peer again
+    where it is stopped or idle - time runs on with the peer not answering the new connection attempt: every timer that comes
+    due is fired.  Lockstep with the model; the Monitor judges every step (a left-over timer acting on the new attempt: C01)."""
+    confs = [{'hold_time': 9, 'connect_retry_time': 45, 'idle_hold_time': 5}, {'hold_time': 30}, {}]
+    if tier == 'quick':
+        confs = confs[:2]
+    for conf in confs:
+        full = dict(S.DEFAULT_CFG); full.update(conf)
+        pool = SG.message_pool(full['remote_as'])
+        d = dict(pool)
+        enders = [('chunk', l) for l, _ in pool if not l.startswith('open_') or l in ('open_ok', 'open_badver', 'open_hold1')]
+        enders += [('lost', None), ('stop', None)]
+        for depth in (0, 1, 2):        # OpenSent, OpenConfirm, Established
+            for kind, lab in enders:
+                for restart in (True, False):
+                    p = Pair(conf, driver, res)
+                    p.step({'k': 'boot'})
+                    p.step({'k': 'connok', 'c': 0})
+                    if depth >= 1:
+                        p.step({'k': 'chunk', 'c': 0, 'hex': d['open_hold8' if conf.get('hold_time') == 30 else 'open_ok'].hex()})
+                    if depth >= 2:
+                        p.step({'k': 'chunk', 'c': 0, 'hex': SG.KEEPALIVE.hex()})
+                    if p.sim.enabled({'k': 'advance', 'dt': 2}):
+                        p.step({'k': 'advance', 'dt': 2})
+                    ev = {'k': kind} if kind == 'stop' else ({'k': 'lost', 'c': 0} if kind == 'lost' else
+                                                              {'k': 'chunk', 'c': 0, 'hex': d[lab].hex()})
+                    if not p.sim.enabled(ev):
+                        continue
+                    p.step(ev)
+                    if p.sim.enabled({'k': 'lost', 'c': 0}) and p.sim.world.connectors[0].state == 'closing':
+                        p.step({'k': 'lost', 'c': 0})
+                    if restart and p.last['state'] == 'IDLE':
+                        p.step({'k': 'start'})
+                    for _ in range(10):
+                        if p.skip:
+                            break
+                        w = p.sim.world
+                        due = [S.TIMER_NAMES.get(getattr(c.func, '__name__', None)) for c in w.due()]
+                        due = [x for x in due if x]
+                        if due:
+                            p.step({'k': 'fire', 't': due[0]})
+                            continue
+                        times = [c.time for c in w.calls if c.time > w.now]
+                        if not times:
+                            break
+                        p.step({'k': 'advance', 'dt': min(times) - w.now})
+                    res.stats.case(('after-the-end', jdump(conf), depth, kind, lab, restart), sample=None)
+                    res.stats.hit('after_the_end')
 
 
 def two_sessions(driver, res, r, tier):
@@ -333,7 +389,9 @@ def two_sessions(driver, res, r, tier):
             p = Pair(conf, driver, res)
             p.step({'k': 'boot'})
             cid = 0
-            for n, which in enumerate((a, b)):
+            # (a third session: what the second one received or negotiated - a changed peer identifier, say - can only show
+            # in the OPEN of the one after it)
+            for n, which in enumerate((a, b, a)):
                 if not p.sim.enabled({'k': 'connok', 'c': cid}):
                     break
                 p.step({'k': 'connok', 'c': cid})
@@ -500,6 +558,93 @@ def handler_faults(res, r, tier):
         do({'k': 'chunk', 'c': 0, 'hex': pool['keepalive'].hex()})
         res.stats.case(('handler-queue', jdump(items)), sample=None)
         res.stats.hit('handler_queue')
+
+
+def shipped_handler(res, r, tier):
+    """Implementation only: sessions whose application is the handler yabgp ships (DefaultHandler, message logging to disk
+    on, KEEPALIVEs logged, files rotating every few records) instead of the harness's recording handler - the agent as it
+    is deployed.  Peers named by an IPv4 address and by an IPv6 address written in upper case.  A long run of UPDATEs and
+    KEEPALIVEs arriving just inside the hold time, the agent's timers fired as they come due: the Monitor's oracles (state
+    machine, timers, counters) must hold exactly as with any other application."""
+    import shutil as _sh
+    import impl_msglog as IM
+    root = os.path.join(IM.SCRATCH_ROOT, 'scratch_shipped_%d' % os.getpid())
+    CONF = IM.CONF
+    for peer_addr in ('10.0.0.2', '2001:DB8::2'):
+        for hold in (9, 30):
+            _sh.rmtree(root, ignore_errors=True)
+            os.makedirs(root)
+            for k, v in (('write_disk', True), ('write_dir', root), ('write_msg_max_size', 600), ('write_keepalive', True)):
+                CONF.set_override(k, v, group='message')
+            try:
+                conf = {'hold_time': hold, 'remote_addr': peer_addr,
+                        'application': 'the shipped DefaultHandler, disk logging on, rotation every 600 octets'}
+                full = dict(S.DEFAULT_CFG); full.update(conf)
+                pool = dict(SG.message_pool(full['remote_as']))
+                sim = S.Sim(conf)
+                real = IM.dh.DefaultHandler()
+                real.init()
+                rec = sim.handler
+                for name in ('on_update_error', 'update_received', 'keepalive_received', 'open_received', 'send_open',
+                             'route_refresh_received', 'notification_received', 'on_connection_lost', 'on_connection_failed',
+                             'on_established'):
+                    if not hasattr(rec, name) or not hasattr(real, name):
+                        continue
+
+                    def both(*a, _r=getattr(rec, name), _d=getattr(real, name), **kw):
+                        _r(*a, **kw)
+                        return _d(*a, **kw)
+                    setattr(rec, name, both)
+                mon = Monitor(res, conf, full)
+                mon.only = {'C01', 'C03', 'C10', 'C18'}
+
+                def do(ev, sim=sim, mon=mon):
+                    if not sim.enabled(ev):
+                        return None
+                    o = sim.step(ev)
+                    mon.step(ev, o, sim)
+                    return o
+
+                def drain(sim=sim, do=do):
+                    for _ in range(6):
+                        due = [S.TIMER_NAMES.get(getattr(c.func, '__name__', None)) for c in sim.world.due()]
+                        due = [d for d in due if d]
+                        if not due:
+                            return
+                        do({'k': 'fire', 't': due[0]})
+                do({'k': 'boot'})
+                do({'k': 'connok', 'c': 0})
+                do({'k': 'chunk', 'c': 0, 'hex': pool['open_ok'].hex()})
+                do({'k': 'chunk', 'c': 0, 'hex': pool['keepalive'].hex()})
+                H = min(hold, 90) * 3       # ticks
+                arrivals = ['update_ok', 'update_withdraw', 'update_ok', 'update_aspath4', 'keepalive', 'update_ok', 'update_eor',
+                            'update_ok', 'update_withdraw', 'update_bad_origin', 'update_ok', 'update_ok', 'update_withdraw',
+                            'update_ok', 'keepalive', 'update_ok', 'update_ok', 'update_withdraw', 'update_ok', 'update_ok']
+                for lab in arrivals:
+                    # the next message arrives just inside the hold time; timers that come due on the way are fired
+                    target = sim.world.now + H - 1
+                    for _ in range(12):
+                        drain()
+                        times = [c.time for c in sim.world.calls if sim.world.now < c.time <= target]
+                        nxt = min(times) if times else target
+                        if nxt <= sim.world.now:
+                            break
+                        if do({'k': 'advance', 'dt': nxt - sim.world.now}) is None:
+                            break
+                    drain()
+                    if do({'k': 'chunk', 'c': 0, 'hex': pool[lab].hex()}) is None:
+                        break
+                res.stats.case(('shipped-handler', peer_addr, hold), sample=None)
+                res.stats.hit('shipped_handler_sessions')
+                nfiles = 0
+                md = os.path.join(root, peer_addr.lower(), 'msg')
+                if os.path.isdir(md):
+                    nfiles = len(os.listdir(md))
+                res.stats.hit('shipped_handler_log_files', nfiles)
+            finally:
+                for k in ('write_disk', 'write_dir', 'write_msg_max_size', 'write_keepalive'):
+                    CONF.clear_override(k, group='message')
+                _sh.rmtree(root, ignore_errors=True)
 
 
 def replay_witness(wit, driver):
